@@ -40,7 +40,8 @@ type ServerScenario struct {
 	Spaced   bool  // datagrams 1 tick apart instead of all at t=0
 	EndErrAt int   // position at which a read error is injected (-1: none)
 	CloseAt  int64 // tick at which another thread calls Close (-1: none)
-	Handler  int   // 0 immediate, 1 sleeps one tick then re-reads its message, 2 mutates its message then sleeps
+	Handler  int   // 0 immediate, 1 sleeps one tick then re-reads its message, 2 mutates its message then sleeps,
+	// 3 blocks until the serve loop has consumed the whole script (outlives every later read)
 	Bound    int
 }
 
@@ -198,6 +199,12 @@ func (s *ServerScenario) body(out **srvRun) func() {
 		if len(group) > 0 {
 			conn.DeliverGroupAt(0, group)
 		}
+		allRead := vs.MakeChan[struct{}](0)
+		conn.OnReadErr = func() {
+			if !allRead.IsClosed() {
+				allRead.CloseNow()
+			}
+		}
 		record := func(serial int, peer net.Addr, snap func() []byte, mutate func()) {
 			inv := &srvInvocation{serial: serial, atStart: snap(), atEnd: snap}
 			if peer != nil {
@@ -213,6 +220,8 @@ func (s *ServerScenario) body(out **srvRun) func() {
 				mutate()
 				inv.mutated = true
 				vs.Sleep(time.Duration(Tick))
+			case 3:
+				allRead.Recv()
 			}
 		}
 		var serve func() error
@@ -492,7 +501,7 @@ func c14Scenarios(tier string) []Scenario {
 			for i := 0; i < n; i++ {
 				seq = append(seq, kinds[(i*7+i/6)%len(kinds)])
 			}
-			for h := 0; h < 3; h++ {
+			for h := 0; h < 4; h++ {
 				add(&ServerScenario{V6: v6, Dgs: seq, EndErrAt: n, CloseAt: -1, Handler: h, Bound: -1}, "long-sequence")
 			}
 		}
